@@ -14,7 +14,7 @@ import (
 )
 
 const mStart = simEpochMs/1000 - 3600
-const mEnd = simEpochMs/1000 + 40*86400
+const mEnd = simEpochMs/1000 + 3000*86400
 
 // genWalHistory: incarnation 0 ingests datapoints in rounds; after each round the clock advances past the
 // 1-second WAL flush timers (datapoints, metric names, meta entries). Knobs force in-line WAL appends, WAL
@@ -352,7 +352,49 @@ func walDamageOracle(prop string, res *RunResult) []Violation {
 			StopError string   `json:"stop_error"`
 		}
 		_ = json.Unmarshal(e.Data, &d)
-		want := intact[op.Name]
+		// whatever the file decodes into must have been appended: each datapoint at most as often as it was
+		// written (values are unique per datapoint), each metric name a written name
+		if kind, _ := op.Args["kind"].(string); kind == "dp" || kind == "" {
+			avail := map[string]int{}
+			for _, o := range res.Plan.Incs[0].Ops {
+				for _, raw := range o.Events {
+					if dp, err := parseDP(raw); err == nil {
+						avail[fmt.Sprintf("%d|%016x", dp.TS, f64bits(dp.V))]++
+					}
+				}
+			}
+			for i, ent := range d.Seq {
+				p := strings.Split(ent, "|")
+				if len(p) < 2 {
+					continue
+				}
+				k := p[0] + "|" + p[1]
+				if avail[k] == 0 {
+					vs = append(vs, Violation{Sig: prop + ":wal-yields-datapoint-not-appended", Msg: fmt.Sprintf("damage %s: %s entry %d = %s was never appended (or is replayed more often than appended)", dmg, op.Name, i, ent)})
+					break
+				}
+				avail[k]--
+			}
+		} else if kind == "mname" {
+			names := map[string]bool{}
+			for _, o := range res.Plan.Incs[0].Ops {
+				for _, raw := range o.Events {
+					if dp, err := parseDP(raw); err == nil {
+						names[dp.Metric] = true
+					}
+				}
+			}
+			for i, ent := range d.Seq {
+				if !names[ent] {
+					vs = append(vs, Violation{Sig: prop + ":wal-yields-name-not-appended", Msg: fmt.Sprintf("damage %s: %s entry %d = %q was never appended", dmg, op.Name, i, ent)})
+					break
+				}
+			}
+		}
+		want, haveIntact := intact[op.Name]
+		if !haveIntact {
+			continue
+		}
 		if len(d.Seq) > len(want) {
 			vs = append(vs, Violation{Sig: prop + ":damaged-wal-yields-more-than-appended", Msg: fmt.Sprintf("damage %s: %s yields %d entries, intact file had %d", dmg, op.Name, len(d.Seq), len(want))})
 			continue
@@ -462,12 +504,16 @@ func runC10(c *Ctx) {
 		for _, f := range fl {
 			rp.Incs[1].Ops = append(rp.Incs[1].Ops, plan.Op{Kind: "walread", Name: f, Args: map[string]any{"kind": walKind(f)}})
 		}
+		rp.Params["intact"] = map[string][]string{}
+		rp.Note = fmt.Sprintf("history %d: WAL files of the uncrashed run read back through the real iterators", i)
 		rres, err := RunPlan(rp, nil)
 		if err != nil || len(rres.Incs) < 2 {
 			c.Harness(fmt.Sprintf("base %d walread: %v", i, err))
 			return
 		}
 		defer rres.Cleanup()
+		c.Account(rres, fmt.Sprintf("h%d-walread", i), true, nil)
+		c.Report(rp, c.Check.Oracle(rres))
 		for oi, op := range rp.Incs[1].Ops {
 			if e := rres.Incs[1].Get(fmt.Sprint(oi)); e != nil {
 				var d struct {
